@@ -44,10 +44,12 @@ type c10Case struct {
 	// BlockedWriter: websocket: the peer has stopped reading and the server's writer is stuck in a write when the
 	// oversized message arrives (the connection cannot be torn down at once); more messages follow it
 	BlockedWriter bool
+	// BinaryMsg: websocket: the message is a binary one (its own branch of the transport's reader)
+	BinaryMsg bool
 }
 
 func (c c10Case) String() string {
-	return fmt.Sprintf("{L=%d %s rev%d size=%d(%s) decl=%s packets=%d layout=%s frag=%d b64=%v upgraded=%v cut=%d otherServerLimit=%d overlap=%v blockedWriter=%v}", c.L, c.Path, c.Rev, c.Size, c.SizeCls, c.Decl, c.Multi, c.Layout, c.Frag, c.B64, c.Upgraded, c.Cut, c.Other, c.Overlap, c.BlockedWriter)
+	return fmt.Sprintf("{L=%d %s rev%d size=%d(%s) decl=%s packets=%d layout=%s frag=%d b64=%v upgraded=%v cut=%d otherServerLimit=%d overlap=%v blockedWriter=%v binary=%v}", c.L, c.Path, c.Rev, c.Size, c.SizeCls, c.Decl, c.Multi, c.Layout, c.Frag, c.B64, c.Upgraded, c.Cut, c.Other, c.Overlap, c.BlockedWriter, c.BinaryMsg)
 }
 
 func genC10(rt *rapid.T, known bool, col *Collector) c10Case {
@@ -94,6 +96,7 @@ func genC10(rt *rapid.T, known bool, col *Collector) c10Case {
 		c.Overlap = c.L >= 8 && rapid.IntRange(0, 3).Draw(rt, "overlap") == 0
 	case "ws":
 		c.Layout = rapid.SampledFrom([]string{"single", "single", "fragments", "header-only-64bit", "deflated", "deflated"}).Draw(rt, "layout")
+		c.BinaryMsg = rapid.Bool().Draw(rt, "binaryMsg")
 		c.BlockedWriter = (c.Layout == "single" || c.Layout == "deflated") && c.Size > c.L && c.L >= 16 && rapid.IntRange(0, 2).Draw(rt, "blockedWriter") == 0
 		if c.Layout == "fragments" {
 			c.Frag = int(rapid.Int64Range(1, c.L).Draw(rt, "frag"))
@@ -346,7 +349,14 @@ func runC10(c c10Case) (fail string, stats map[string]bool) {
 				stats["size-not-constructible"] = true
 				return "", stats
 			}
-			data := bytes.Repeat([]byte("a"), int(c.Size-1))
+			// the frame's payload is the encoded packet: Size bytes in all (a binary message of revision 4 travels
+			// without a type byte)
+			overheadB := len(encPacketFrame(c.Rev, false, Pkt{Type: tMessage, Binary: c.BinaryMsg, Data: []byte("a")}).Data) - 1
+			if c.Size-int64(overheadB) < 0 {
+				stats["size-not-constructible"] = true
+				return "", stats
+			}
+			data := bytes.Repeat([]byte("a"), int(c.Size)-overheadB)
 			wire := 0 // deflated: payload bytes of the frame on the wire
 			var frags []int
 			if c.Layout == "fragments" {
@@ -366,13 +376,16 @@ func runC10(c c10Case) (fail string, stats map[string]bool) {
 				if !s.wc.Negotiated() {
 					return "harness: permessage-deflate was not negotiated", stats
 				}
-				wire, _ = s.wc.SendPacketDeflatedN(Pkt{Type: tMessage, Data: data})
+				wire, _ = s.wc.SendPacketDeflatedN(Pkt{Type: tMessage, Data: data, Binary: c.BinaryMsg})
+				if c.BinaryMsg && over {
+					stats["compressed-binary-frame-inflating-past-the-limit"] = true
+				}
 				stats["compressed-frame"] = true
 				if over {
 					stats["compressed-frame-inflating-past-the-limit"] = true
 				}
 			} else {
-				s.wc.SendPacket(Pkt{Type: tMessage, Data: data}, frags)
+				s.wc.SendPacket(Pkt{Type: tMessage, Data: data, Binary: c.BinaryMsg}, frags)
 			}
 			Settle()
 			if c.BlockedWriter {
@@ -538,7 +551,7 @@ func TestC10MaxPayload(t *testing.T) {
 			rt.Fatalf("%v: %s", c, clipStr(res.Leak, 1500))
 		}
 	})
-	col.RequireClasses(t, "413", "delivered", "connection-terminated", "header-only", "fragmented", "within-1-of-limit", "path.polling", "path.jsonp", "path.ws", "path.wt", "decl.lying-big", "decl.lying-small", "after-upgrade", "frame-header-split-in-transit", "second-server-built-from-the-same-options-object", "overlapping-a-held-upload", "compressed-frame-inflating-past-the-limit", "oversized-message-while-the-writer-is-blocked")
+	col.RequireClasses(t, "413", "delivered", "connection-terminated", "header-only", "fragmented", "within-1-of-limit", "path.polling", "path.jsonp", "path.ws", "path.wt", "decl.lying-big", "decl.lying-small", "after-upgrade", "frame-header-split-in-transit", "second-server-built-from-the-same-options-object", "overlapping-a-held-upload", "compressed-frame-inflating-past-the-limit", "oversized-message-while-the-writer-is-blocked", "compressed-binary-frame-inflating-past-the-limit")
 }
 
 func TestC10ChunkedFinding(t *testing.T) {
